@@ -31,6 +31,23 @@ def on_alarm(*_):
 
 
 signal.signal(signal.SIGALRM, on_alarm)
+signal.signal(signal.SIGPROF, on_alarm)
+
+
+# "promptly" and "hang" are measured in CPU time of this process (what the parser itself burns: a machine busy with other work does
+# not change it), with a far more generous wall-clock alarm behind it for a parser that blocks without burning anything
+CPU_LIMIT_S = 20
+WALL_LIMIT_S = 300
+
+
+def watch_on():
+    signal.setitimer(signal.ITIMER_PROF, CPU_LIMIT_S)
+    signal.alarm(WALL_LIMIT_S)
+
+
+def watch_off():
+    signal.setitimer(signal.ITIMER_PROF, 0)
+    signal.alarm(0)
 
 
 class RawSource(io.RawIOBase):
@@ -108,46 +125,46 @@ for i, data in enumerate(inputs):
     hung = False
     PEAK[0] = 0
     for name, fn in ENTRY.items():
-        t0 = time.time()
-        signal.alarm(20)
+        t0 = time.process_time()
+        watch_on()
         try:
             outcomes[name] = run(fn, data)
         except Timeout:
             outcomes[name] = "hang"
             hung = True
         finally:
-            signal.alarm(0)
-        max_s = max(max_s, time.time() - t0)
+            watch_off()
+        max_s = max(max_s, time.process_time() - t0)
     # the same bytes from an ordinary file object (a BufferedReader: read(n) allocates n up front)
     if len(data) <= 64 or i % 3 == 0:
         for name in ("g.flat", "r.flat"):
-            t0 = time.time()
-            signal.alarm(20)
+            t0 = time.process_time()
+            watch_on()
             try:
                 o = run(ENTRY[name], data, as_file=True)
             except Timeout:
                 o = "hang"
                 hung = True
             finally:
-                signal.alarm(0)
+                watch_off()
             outcomes[f"{name}/file"] = o
-            max_s = max(max_s, time.time() - t0)
+            max_s = max(max_s, time.process_time() - t0)
     # the same bytes from a non-seekable source (short inputs and a sample of the others): the header is
     # obtained differently there, and "ends after 0, 1, 2 bytes" is a case of its own
     if len(data) <= 8 or i % 4 == 0:
         for chunk in ((1, 2, 1 << 20) if len(data) <= 8 else (3,)):
             for name in ("g.flat", "r.grouped"):
-                t0 = time.time()
-                signal.alarm(20)
+                t0 = time.process_time()
+                watch_on()
                 try:
                     o = run(ENTRY[name], data, raw_chunk=chunk)
                 except Timeout:
                     o = "hang"
                     hung = True
                 finally:
-                    signal.alarm(0)
+                    watch_off()
                 outcomes[f"{name}/raw{chunk}"] = o
-                max_s = max(max_s, time.time() - t0)
+                max_s = max(max_s, time.process_time() - t0)
     # canonical form of the framing for the model (only when protobuf accepts the bytes as frames)
     canon = None
     canon_outcome = None
